@@ -133,6 +133,9 @@ func replayFile(path string) int {
 		// the family is small and deterministic: re-run all of it (the violating sets are printed)
 		putCtx(ctx)
 		enumSeqDistance(true)
+	case "B-started-face":
+		putCtx(ctx)
+		enumStartedFace(os.Getenv("VERIF_TIER") == "thorough")
 	case "B-concurrent-maximum-size":
 		putCtx(ctx)
 		enumMaxConcurrent(os.Getenv("VERIF_TIER") == "thorough", &report.Samples{N: 1})
